@@ -522,6 +522,25 @@ def install(reg, src):
 
 
 # ======================================================================================= solve_scipy
+def jac_hyp(sp, e, w, E, PV):
+    """Hypothesis of the compile_jacobian contract for one column: the expression is regular for the variable at the point
+    and the compiled Jacobian entry is inside its domain (A1 made explicit; see contracts/jaccompile_c.py)."""
+    from .jacrow_c import DOMJ
+    r = sp.ref(e)
+    return z3.And(sp.S.REG(r, w, E, PV), DOMJ(r, w, E, PV))
+
+
+
+GDOM = sym.fn("GDOM", sym.Ref, sym.Name, sym.EnvSort, sym.PVSort, sym.B)
+
+
+def grad_hyp(sp, obj, w, E, PV):
+    """Hypothesis of the solver's gradient clause: the objective is regular for the variable at the point and the gradient
+    entry the solver compiled (of the objective or of its negation) is inside its domain."""
+    r = sp.ref(obj)
+    return z3.And(sp.S.REG(r, w, E, PV), GDOM(r, w, E, PV))
+
+
 def install_scipy(reg, src):
     from .compiler_c import NV, IDXS, DOMOF, make_index_map, index_map_of_varlist, names_of_varlist, compiled_fn, point_for
     from .seqtheory import named_exists, named_forall, seqs, _once, skolem, add_index
@@ -571,11 +590,15 @@ def install_scipy(reg, src):
             sp2 = Spec(ip2)
             E = env_of(x)
             arr = sym.fresh("gradrow", sym.RealArr)
-            # 1 x n Jacobian of the (signed) objective; entry j is the partial derivative w.r.t. V_j (C03 contract)
+            # 1 x n Jacobian of the (signed) objective; entry j is the partial derivative w.r.t. V_j wherever the objective is
+            # regular for V_j and the compiled entry is inside its domain (C03 contract of compile_jacobian)
             def elem(k):
                 kt = k if not isinstance(k, int) else z3.IntVal(k)
-                dv = sp2.dv(obj, FN(V.get(kt).ref), E, sp2.PV)
-                return SReal(z3.If(ismax, -dv, dv), "npfloat")
+                wk_ = FN(V.get(kt).ref)
+                dv = sp2.S.DV(sp2.ref(obj), wk_, E, sp2.PV)
+                out = z3.Select(arr, kt)
+                ip2.path.assume(z3.Implies(grad_hyp(sp2, obj, wk_, E, sp2.PV), out == z3.If(ismax, -dv, dv)))
+                return SReal(out, "npfloat")
             row = SSeq(n, elem, "ndarray", "jacobian-row")
             return SpecFn(None, "jacobian 1xn", meta={"methods": {"flatten": lambda ip3: row}, "row": row})
         cons_n = s0.ncon
@@ -686,8 +709,10 @@ def install_scipy(reg, src):
             goals.append(real_term(fv) == z3.If(sense == sym.lit("<="), -den, den))
             jv = ip2.models.as_seq(ip2.call(it["jac"], [X], {}, None))
             skj = skolem(ip2, "sk_cjac", n)
-            dv = sp2.dv(e_, FN(V.get(skj).ref), Ec, sp2.PV)
-            goals.append(z3.Implies(z3.And(skj >= 0, skj < n), real_term(jv.get(skj)) == z3.If(sense == sym.lit("<="), -dv, dv)))
+            wj_ = FN(V.get(skj).ref)
+            dv = sp2.dv(e_, wj_, Ec, sp2.PV)
+            goals.append(z3.Implies(z3.And(skj >= 0, skj < n, jac_hyp(sp2, e_, wj_, Ec, sp2.PV)),
+                                    real_term(jv.get(skj)) == z3.If(sense == sym.lit("<="), -dv, dv)))
             return goals
         c.loop(1, lambda st_: [], havoc={"bounds": ListSpec(bounds_elem, bounds_equal, "bounds"),
                                          "lb": T.real("float"), "ub": T.real("float")})
@@ -711,8 +736,18 @@ def install_scipy(reg, src):
             gv = ip.call(it["grad_fn"], [X], {}, None)
             row = ip.models.as_seq(ip.call(ip.getattr(gv, "flatten"), [], {}, None))
             skg = skolem(ip, "sk_grad", n)
-            dv = sp2.dv(objx, FN(V.get(skg).ref), Eo, sp2.PV)
-            goals.append(z3.Implies(z3.And(skg >= 0, skg < n), real_term(row.get(skg)) == (-dv if ismax else dv)))
+            wg_ = FN(V.get(skg).ref)
+            dv = sp2.dv(objx, wg_, Eo, sp2.PV)
+            # GDOM names "the gradient entry the solver compiled for this objective is inside its domain"; the tree compiled is
+            # the objective itself or, for maximisation, its negation
+            comp = (it["grad_fn"].meta.get("jacobian_of") or [None])[0] if isinstance(it.get("grad_fn"), SpecFn) else None
+            if comp is not None:
+                from .jacrow_c import DOMJ
+                ip.path.assume(GDOM(sp2.ref(objx), wg_, Eo, sp2.PV) == DOMJ(sp2.ref(comp), wg_, Eo, sp2.PV))
+                sp2.reg(comp, wg_, Eo, sp2.PV)
+                sp2.dv(comp, wg_, Eo, sp2.PV)
+            goals.append(z3.Implies(z3.And(skg >= 0, skg < n, grad_hyp(sp2, objx, wg_, Eo, sp2.PV)),
+                                    real_term(row.get(skg)) == (-dv if ismax else dv)))
             for key_ in ("bounds", "scipy_constraints"):
                 v_ = it.get(key_)
                 goals.append(z3.BoolVal(isinstance(v_, SSeq) and v_.tag == ("listspec", key_)))
@@ -983,9 +1018,11 @@ def install_scipy_main(reg, src):
                     J = ip.models.as_seq(jv)
                     skj = skolem(ip, "sk_jac", n)
                     V = ip.schema.seq_of_base(ip, ctx["vbase"], "Variable")
-                    dvj = sp.dv(obj, FN(V.get(skj).ref), Ew, sp.PV)
+                    wj_ = FN(V.get(skj).ref)
+                    dvj = sp.dv(obj, wj_, Ew, sp.PV)
                     path.oblige(oid("wiring: jac is the gradient of that objective in variable order"),
-                                z3.Implies(z3.And(skj >= 0, skj < n), real_term(J.get(skj)) == (-dvj if ismax else dvj)), kind="post", props=["C09"])
+                                z3.Implies(z3.And(skj >= 0, skj < n, grad_hyp(sp, obj, wj_, Ew, sp.PV)),
+                                           real_term(J.get(skj)) == (-dvj if ismax else dvj)), kind="post", props=["C09"])
                 else:
                     path.oblige(oid("wiring: derivative-free methods get no jac"), z3.BoolVal(kw.get("jac") is None), kind="post", props=["C09"])
                 wantb = case["method"] in bounds_methods
